@@ -5,6 +5,8 @@
 //!   verif replay <file>                   re-execute a recorded violation / known finding
 
 mod c13;
+mod c14;
+mod c16;
 mod e1_checks;
 mod e1b_checks;
 mod e2_c03;
@@ -12,6 +14,7 @@ mod e2_c05;
 mod e2_c06;
 mod e2_c09;
 mod e2_c12;
+mod e2_xfer;
 mod e3_codec;
 mod e3_config;
 mod e3_window;
@@ -109,9 +112,15 @@ fn worker_dispatch(engine: &str) -> Box<dyn Fn(&Value) -> Value> {
     match engine {
         "modea" => Box::new(e1_checks::modea_cell),
         "modeb" => Box::new(e1b_checks::modeb_cell),
+        "c14_inproc" => Box::new(c14::inproc_cell),
+        "c14_bin" => Box::new(c14::binary_cell),
+        "c14_pair" => Box::new(c14::pair_cell),
+        "c16_wire" => Box::new(c16::wire_cell),
+        "c16_cfg" => Box::new(c16::config_cell),
         "c13_fsize" => Box::new(c13::fsize_cell),
         "c13_two" => Box::new(c13::two_cell),
         "c13_e2" => Box::new(c13::e2_cell),
+        "e2_xfer" => Box::new(e2_xfer::cell),
         "c03" => Box::new(e2_c03::cell),
         "c05" => Box::new(e2_c05::cell),
         "c06" => Box::new(e2_c06::cell),
@@ -139,7 +148,8 @@ fn run_check(id: &str, tier: Tier) -> Option<Outcome> {
         "C15" => e1b_checks::c15_check(tier),
         "C07" => e1_checks::c07_check(tier),
         "C08" => e1_checks::c08_check(tier),
-        "C16" => e1_checks::c16_check(tier),
+        "C14" => c14::check(tier),
+        "C16" => c16::check(tier),
         "C10" => e3_codec::c10_check(tier),
         "C11" => e3_codec::c11_check(tier),
         "C17" => e3_config::check(tier),
@@ -181,8 +191,10 @@ fn replay(path: &str) -> i32 {
     let text = match r["engine"].as_str().unwrap_or("") {
         "modea" => e1_checks::replay(r),
         "modeb" => e1b_checks::replay(r),
+        "c14" | "c14_bin" | "c14_pair" => c14::replay(r),
         "c13_two" => c13::replay_two(r),
         "c13_e2" => c13::replay_e2(r),
+        "e2_xfer" => e2_xfer::replay(r),
         "e2_c03" => e2_c03::replay(r),
         "e2_c05" => e2_c05::replay(r),
         "e2_c06" => e2_c06::replay(r),
